@@ -131,11 +131,23 @@ func genInput(t *sim.Tape, allowed []Surface, st *sim.Stats) *Input {
 		if i := bytes.Index(in.Data, []byte("eexec")); i >= 0 {
 			in.Marks = append(in.Marks, i+5, i+6, i+8, i+10)
 		}
+		// every CR LF pair: a read boundary between the two bytes is the classic
+		// place for look-ahead mistakes
+		for i := 0; i+1 < len(in.Data) && len(in.Marks) < 40; i++ {
+			if in.Data[i] == '\r' && in.Data[i+1] == '\n' {
+				in.Marks = append(in.Marks, i+1)
+			}
+		}
 		if i := bytes.Index(in.Data, []byte("readstring")); i >= 0 {
 			in.Marks = append(in.Marks, i+10, i+11)
 		}
 		in.Desc = "program"
 	case SurfCMap:
+		if t.Bool(1, 8) {
+			in.Data = gen.GenCMapMisuse(t)
+			in.Desc = "CMap file misusing the CIDInit operators"
+			break
+		}
 		n := 1
 		if t.Bool(1, 5) {
 			n = 2 + t.Choose(3)
@@ -148,6 +160,12 @@ func genInput(t *sim.Tape, allowed []Surface, st *sim.Stats) *Input {
 			in.Marks = append(in.Marks, i, i+14)
 		}
 	case SurfFont:
+		if t.Bool(1, 7) {
+			if file, desc := gen.SeacFont(t); file != nil {
+				in.Data, in.Desc, in.Complete = file, desc, true
+				break
+			}
+		}
 		f := gen.GenFont(t, 14)
 		format := sim.Pick(t, gen.FontFormats)
 		data, err := gen.FontFile(f, format)
